@@ -310,10 +310,9 @@ func (e *Engine) setupIntrinsics() {
 		if hv, ok := e.hostArgs(st, a[1]); ok {
 			return concStr(fmt.Sprintf(format, hv...))
 		}
-		if tf := e.pkg.Func("vpSprintf"); tf != nil {
-			return tailCall{Fn: FuncV{Fn: tf}, Args: a}
-		}
-		panic(unsupported("Sprintf with symbolic arguments"))
+		// messages built from symbolic data (panic and error texts) are opaque
+		e.intrUsed["fmt.Sprintf with symbolic arguments -> opaque text"] = true
+		return concStr("<fmt.Sprintf: opaque>")
 	}
 	n["fmt.Sprint"] = func(e *Engine, st *State, fn *ssa.Function, a []Value) Value {
 		if hv, ok := e.hostArgs(st, a[0]); ok {
@@ -499,6 +498,8 @@ func (e *Engine) ackermann(st *State, fname string, args []*Term, s Sort) *Term 
 // checkAssert decides whether the assertion c can fail on this path.
 func (e *Engine) checkAssert(st *State, c *Term, label string) {
 	if v, ok := st.lookupFact(c); ok && v {
+		// already established on this path by an earlier unsat feasibility query
+		e.res.AssertsByFacts++
 		return
 	}
 	e.res.AssertQueries++
